@@ -1,1 +1,73 @@
 //! Verification hook: public wrapper of the encrypted noise stream over a caller-supplied transport.
+use std::{
+    pin::Pin,
+    task::{Context, Poll},
+};
+
+use zksync_concurrency::{ctx, io};
+use zksync_consensus_crypto::keccak256::Keccak256;
+
+use crate::noise;
+
+/// Public newtype around the crate-private `noise::Stream<S>`. Adds no behaviour:
+/// every method delegates to the method of the same name.
+pub struct NoiseStream<S>(noise::Stream<S>);
+
+impl<S> NoiseStream<S>
+where
+    S: io::AsyncRead + io::AsyncWrite + Unpin,
+{
+    /// `noise::Stream::client_handshake`.
+    pub async fn client_handshake(ctx: &ctx::Ctx, stream: S) -> ctx::Result<Self> {
+        Ok(Self(noise::Stream::client_handshake(ctx, stream).await?))
+    }
+
+    /// `noise::Stream::server_handshake`.
+    pub async fn server_handshake(ctx: &ctx::Ctx, stream: S) -> ctx::Result<Self> {
+        Ok(Self(noise::Stream::server_handshake(ctx, stream).await?))
+    }
+
+    /// `noise::Stream::id` (hash of the handshake transcript).
+    pub fn id(&self) -> Keccak256 {
+        self.0.id()
+    }
+
+    /// The underlying transport (`Deref` of `noise::Stream`).
+    pub fn transport(&self) -> &S {
+        &self.0
+    }
+}
+
+impl<S> io::AsyncRead for NoiseStream<S>
+where
+    S: io::AsyncRead + io::AsyncWrite + Unpin,
+{
+    fn poll_read(
+        self: Pin<&mut Self>,
+        cx: &mut Context<'_>,
+        buf: &mut io::ReadBuf<'_>,
+    ) -> Poll<io::Result<()>> {
+        Pin::new(&mut self.get_mut().0).poll_read(cx, buf)
+    }
+}
+
+impl<S> io::AsyncWrite for NoiseStream<S>
+where
+    S: io::AsyncRead + io::AsyncWrite + Unpin,
+{
+    fn poll_write(
+        self: Pin<&mut Self>,
+        cx: &mut Context<'_>,
+        buf: &[u8],
+    ) -> Poll<io::Result<usize>> {
+        Pin::new(&mut self.get_mut().0).poll_write(cx, buf)
+    }
+
+    fn poll_flush(self: Pin<&mut Self>, cx: &mut Context<'_>) -> Poll<io::Result<()>> {
+        Pin::new(&mut self.get_mut().0).poll_flush(cx)
+    }
+
+    fn poll_shutdown(self: Pin<&mut Self>, cx: &mut Context<'_>) -> Poll<io::Result<()>> {
+        Pin::new(&mut self.get_mut().0).poll_shutdown(cx)
+    }
+}
